@@ -10,6 +10,7 @@ TMO_MS = 100
 
 class C11(PropBase):
     id = 'C11'
+    partial_passes = 0.25
     lean_modules = ['Isotp.Props.C11']
     theorems = []
     keep_ops = ('layer', 'send', 'fault')
